@@ -54,6 +54,78 @@ def captures_of(prog, clos):
     return None, par
 
 
+def check_msg_wiring(rep, prog, spec, rid, names=None):
+    """constructor field wiring + call-site argument wiring of Message::<name>; returns {generator field: users}"""
+    # ---------------- TX-2 constructors
+    for name, table in spec["constructors"].items():
+        if names is not None and name not in names:
+            continue
+        try:
+            b = prog.one(name=name, self_name="Message", crate="statime-lib")
+        except AnchorMissing as e:
+            rep.anchor_missing(rid, str(e))
+            continue
+        pv = df.Prov(b)
+        out = {}
+        flat("", pv.local_tree(0), out)
+        for f, want in table.items():
+            t = out.get(f)
+            if t is None and f + ".0" in out:
+                t = out[f + ".0"]
+            construct = "Message::%s.%s" % (name, f)
+            if t is None:
+                rep.violation(rid, b.key, construct, "field %s not found in the constructed message" % f, where=b.loc())
+                continue
+            if want.startswith("lin:"):
+                got = {df.canon_pos(("path",) + (), b) if False else k: v for k, v in df.lin(t, df._Positional(b)).items()}
+                ok = got == df.parse_lin(want[4:])
+                gs = df.lin_str(got)
+            else:
+                gs = df.canon_pos(t, b)
+                ok = gs == want
+            if ok:
+                rep.ok(rid, b.key, construct, detail=gs, where=b.loc())
+            else:
+                rep.violation(rid, b.key, construct, "%s is built from `%s`, prescribed: `%s`" % (construct, gs, want), where=b.loc())
+
+    # ---------------- TX-2 call sites, contexts; TX-3 generators; TX-4 frames
+    gen_users = {}
+    for name, ent in spec["call_sites"].items():
+        if names is not None and name not in names:
+            continue
+        try:
+            caller = prog.one(name=ent["caller"], self_name="Port", crate="statime-lib")
+        except AnchorMissing as e:
+            rep.anchor_missing(rid, str(e))
+            continue
+        found = False
+        for b in [caller] + prog.closures_of(caller):
+            caps = captures_of(prog, b)[0] if b.is_closure else None
+            pv = df.Prov(b, captures=caps)
+            for bi, t, cal in mir.iter_calls(b, name=name):
+                if "messages::<Message>::" not in cal["key"]:
+                    continue
+                found = True
+                for idx, want in ent["args"].items():
+                    a = t["args"][int(idx)]
+                    tr = pv.op_tree(a)
+                    gs = df.canon(tr, b)
+                    construct = "%s(arg %s)" % (name, idx)
+                    if gs == want:
+                        rep.ok(rid, caller.key, construct, detail=gs, where=fc.where(b, t["sp"][1]))
+                    else:
+                        rep.violation(rid, caller.key, construct,
+                                      "Message::%s is given `%s` as argument %s, prescribed: `%s`" % (name, gs, idx, want),
+                                      where=fc.where(b, t["sp"][1]))
+                    m = re.fullmatch(r"generate\(self\.(\w+)\)", gs)
+                    if m:
+                        gen_users.setdefault(m.group(1), set()).add(name)
+        if not found:
+            rep.violation(rid, caller.key, "call Message::%s" % name, "%s no longer builds its message with Message::%s" % (ent["caller"], name),
+                          where=caller.loc())
+    return gen_users
+
+
 def run(ctx):
     rep = ctx.report
     prog = ctx.prog("default")
@@ -99,69 +171,7 @@ def run(ctx):
     except AnchorMissing as e:
         rep.anchor_missing("TX-1", str(e))
 
-    # ---------------- TX-2 constructors
-    for name, table in spec["constructors"].items():
-        try:
-            b = prog.one(name=name, self_name="Message", crate="statime-lib")
-        except AnchorMissing as e:
-            rep.anchor_missing("TX-2", str(e))
-            continue
-        pv = df.Prov(b)
-        out = {}
-        flat("", pv.local_tree(0), out)
-        for f, want in table.items():
-            t = out.get(f)
-            if t is None and f + ".0" in out:
-                t = out[f + ".0"]
-            construct = "Message::%s.%s" % (name, f)
-            if t is None:
-                rep.violation("TX-2", b.key, construct, "field %s not found in the constructed message" % f, where=b.loc())
-                continue
-            if want.startswith("lin:"):
-                got = {df.canon_pos(("path",) + (), b) if False else k: v for k, v in df.lin(t, df._Positional(b)).items()}
-                ok = got == df.parse_lin(want[4:])
-                gs = df.lin_str(got)
-            else:
-                gs = df.canon_pos(t, b)
-                ok = gs == want
-            if ok:
-                rep.ok("TX-2", b.key, construct, detail=gs, where=b.loc())
-            else:
-                rep.violation("TX-2", b.key, construct, "%s is built from `%s`, prescribed: `%s`" % (construct, gs, want), where=b.loc())
-
-    # ---------------- TX-2 call sites, contexts; TX-3 generators; TX-4 frames
-    gen_users = {}
-    for name, ent in spec["call_sites"].items():
-        try:
-            caller = prog.one(name=ent["caller"], self_name="Port", crate="statime-lib")
-        except AnchorMissing as e:
-            rep.anchor_missing("TX-2", str(e))
-            continue
-        found = False
-        for b in [caller] + prog.closures_of(caller):
-            caps = captures_of(prog, b)[0] if b.is_closure else None
-            pv = df.Prov(b, captures=caps)
-            for bi, t, cal in mir.iter_calls(b, name=name):
-                if "messages::<Message>::" not in cal["key"]:
-                    continue
-                found = True
-                for idx, want in ent["args"].items():
-                    a = t["args"][int(idx)]
-                    tr = pv.op_tree(a)
-                    gs = df.canon(tr, b)
-                    construct = "%s(arg %s)" % (name, idx)
-                    if gs == want:
-                        rep.ok("TX-2", caller.key, construct, detail=gs, where=fc.where(b, t["sp"][1]))
-                    else:
-                        rep.violation("TX-2", caller.key, construct,
-                                      "Message::%s is given `%s` as argument %s, prescribed: `%s`" % (name, gs, idx, want),
-                                      where=fc.where(b, t["sp"][1]))
-                    m = re.fullmatch(r"generate\(self\.(\w+)\)", gs)
-                    if m:
-                        gen_users.setdefault(m.group(1), set()).add(name)
-        if not found:
-            rep.violation("TX-2", caller.key, "call Message::%s" % name, "%s no longer builds its message with Message::%s" % (ent["caller"], name),
-                          where=caller.loc())
+    gen_users = check_msg_wiring(rep, prog, spec, "TX-2")
     for fn, ent in spec["contexts"].items():
         try:
             b = prog.one(name=fn, self_name="Port", crate="statime-lib")
